@@ -42,6 +42,8 @@ def check_bed(spec, ctx):
     coding = kind == "tx" and "cds" in obj_spec
     if len(blocks) >= 2 and ((mode == "chunk" and cs > 0) or coding):
         ctx.nt()
+    if spec.get("cutting_chunk") and on_chunk:
+        ctx.label("cutting_chunk_chromosome_mode")
     if mode == "chunk" and cs > 0:
         ctx.label("chunk_relative&cs>0")
     if coding:
@@ -147,8 +149,15 @@ def strat_bed(draw, tier="quick"):
     g = draw(S.dna(n, n))
     cs = draw(st.sampled_from([0, lo, max(0, lo - 1)] + list(range(0, lo + 1))))
     ce = draw(st.sampled_from([hi, n] + list(range(hi, n + 1))))
+    cutting = draw(st.integers(0, 4)) == 0 and hi - lo >= 2
+    if cutting:
+        # a chunk that cuts the interval (or holds only part of its exons): the record in CHROMOSOME coordinates is the
+        # whole-chromosome record all the same (chunk-relative export of such a chunk is outside the property's "exported blocks")
+        cs = draw(st.integers(lo, hi - 1))
+        ce = draw(st.integers(cs + 1, min(n, hi)))
     return {"kind": kind, "obj": obj, "genome": g, "chunk": [cs, ce], "parent": draw(st.sampled_from(["chunk", "chunk", "chrom", "none"])),
-            "other_mode_first": draw(st.booleans()), "chunk_strand": draw(st.sampled_from(["+", "+", "-"])), "mode": draw(st.sampled_from(["chrom", "chunk"])), "name": draw(st.sampled_from(names)), "score": draw(st.integers(0, 1000)),
+            "cutting_chunk": cutting, "other_mode_first": draw(st.booleans()) and not cutting, "chunk_strand": draw(st.sampled_from(["+", "+", "-"])),
+            "mode": "chrom" if cutting else draw(st.sampled_from(["chrom", "chunk"])), "name": draw(st.sampled_from(names)), "score": draw(st.integers(0, 1000)),
             "rgb": [draw(st.integers(0, 255)) for _ in range(3)]}
 
 
@@ -164,7 +173,7 @@ PROP = Prop(
     pid="C14",
     legs=[
         Leg("bed12", check_bed, strategy=strat_bed, examples=EX, n_quick=1500, n_thorough=15000,
-            must_hit=["chunk_relative&cs>0", "coding", "minus", "touching_blocks", "chunk_relative&minus_chunk", "unstranded"],
+            must_hit=["chunk_relative&cs>0", "coding", "minus", "touching_blocks", "chunk_relative&minus_chunk", "unstranded", "cutting_chunk_chromosome_mode"],
             rule="transcripts (coding or not) and features of 1..5 blocks on both strands x parent {chunk containing the interval, whole chromosome, none} x export mode {chromosome, chunk-relative} x name selector x score x RGB; the text of the record is parsed by an independent 12-column reader"),
     ],
     rule="Oracle: BED12 format invariants + decoding back to blocks/strand/name/CDS bounds. Non-trivial: >=2 blocks and (chunk-relative with chunk start > 0, or coding).",
